@@ -2,7 +2,6 @@ package rules
 
 import (
 	"go/ast"
-	"go/token"
 	"go/types"
 	"sort"
 	"strings"
@@ -435,36 +434,28 @@ func runC06(r *fw.Run) {
 		in := fw.NewInterp(fi)
 		in.H = fw.Hooks{
 			Cond: func(e ast.Expr, branch bool, st *fw.State) {
-				be, ok := ast.Unparen(e).(*ast.BinaryExpr)
-				if !ok {
-					return
-				}
-				eq := be.Op == token.EQL && branch || be.Op == token.NEQ && !branch
-				if !eq {
-					return
-				}
-				// jsonValue == nil
-				if x, _, isNil := fw.NilCheck(info, be); isNil && isJV(x) {
-					st.Set("ok")
-				}
-				for _, pair := range [][2]ast.Expr{{be.X, be.Y}, {be.Y, be.X}} {
-					c, isCall := ast.Unparen(pair[0]).(*ast.CallExpr)
-					if !isCall {
-						continue
+				// normalised atoms, so that the spelling of the test (x == nil, !(x != nil), len(a) == 0, len(a) < 1 …) is irrelevant
+				at := fw.Atom(info, e, branch)
+				switch at.Kind {
+				case "Nil": // jsonValue == nil
+					if isJV(at.X) {
+						st.Set("ok")
 					}
-					// jsonValue.Type() == astjson.TypeNull
-					if sel, isSel := ast.Unparen(c.Fun).(*ast.SelectorExpr); isSel && sel.Sel.Name == "Type" && isJV(sel.X) {
-						if co := fw.ConstObj(info, pair[1]); co != nil && co.Name() == "TypeNull" {
+				case "Empty": // len(jsonValue.GetArray()) == 0
+					if ic, isIC := ast.Unparen(at.X).(*ast.CallExpr); isIC {
+						if sel, isSel := ast.Unparen(ic.Fun).(*ast.SelectorExpr); isSel && sel.Sel.Name == "GetArray" && isJV(sel.X) {
 							st.Set("ok")
 						}
 					}
-					// len(jsonValue.GetArray()) == 0
-					if fw.Builtin(info, c) == "len" && len(c.Args) == 1 {
-						if cv, isC := fw.ConstVal(info, pair[1]); isC && cv == "0" {
-							if ic, isIC := ast.Unparen(c.Args[0]).(*ast.CallExpr); isIC {
-								if sel, isSel := ast.Unparen(ic.Fun).(*ast.SelectorExpr); isSel && sel.Sel.Name == "GetArray" && isJV(sel.X) {
-									st.Set("ok")
-								}
+				case "Eq": // jsonValue.Type() == astjson.TypeNull
+					for _, pair := range [][2]ast.Expr{{at.X, at.Y}, {at.Y, at.X}} {
+						c, isCall := ast.Unparen(pair[0]).(*ast.CallExpr)
+						if !isCall {
+							continue
+						}
+						if sel, isSel := ast.Unparen(c.Fun).(*ast.SelectorExpr); isSel && sel.Sel.Name == "Type" && isJV(sel.X) {
+							if co := fw.ConstObj(info, pair[1]); co != nil && co.Name() == "TypeNull" {
+								st.Set("ok")
 							}
 						}
 					}
